@@ -251,8 +251,12 @@ def replay_file(path: str) -> Optional[Violation]:
     case = payload["case"]
     if "decode" in comp:
         case = comp["decode"](case)
+    import contextlib
+    import io
+
     try:
-        comp["check"](case)
+        with contextlib.redirect_stdout(io.StringIO()), contextlib.redirect_stderr(io.StringIO()):
+            comp["check"](case)
     except Violation as v:
         return v
     return None
